@@ -124,7 +124,7 @@ impl<'w> Gen for Gen07<'w> {
         ];
         Some(match rng.weighted(&weights) {
             0 => Op::Next { it },
-            1 => Op::PeekN { it, n: rng.below(6) },
+            1 => Op::PeekN { it, n: gen_peek_n(rng) },
             2 => Op::AdvanceToPeeked { it, k: rng.below(im.last_peek.as_ref().unwrap().1.len()) },
             3 => {
                 let len = self.m.input_of(it).len();
